@@ -24,6 +24,9 @@ def pattern_predicate_table(m, func, body_or_expr, npos, cx, is_body):
     and w_i (value is the wildcard).  Returns (table, pairing) where pairing maps position ->
     canonical name of the value compared there."""
     pairing = {}
+    if is_body:
+        from ..normalize import unroll_const_loops
+        body_or_expr = unroll_const_loops(body_or_expr)        # a loop over the positions with literal bounds
 
     def classify(n):
         n = strip(n, casts=True)
